@@ -47,7 +47,7 @@ def gen_script(rng, pool, legal_cache, timed, long=True):
     if rng.random() < 0.5:
         for _ in range(rng.randrange(0, 3)):
             lines.append(rng.choice(["setoption name Hash value 1", "setoption name Hash value 2", "setoption name UCI_Chess960 value true",
-                                     "setoption name Hash value 0", "setoption name Hash value 999999", "setoption name Foo value bar",
+                                     "setoption name Hash value 0", "setoption name Hash value 64", "setoption name Foo value bar",
                                      "setoption name Hash", "setoption"]))
             if "Chess960 value true" in lines[-1]:
                 frc = True
@@ -151,7 +151,7 @@ def check_C15(run):
     th = run.tier == "thorough"
     P = pool_for(run)
     pool = [e for e in P["pool"] if sum(ch.isalpha() for ch in e["fen"].split(" ")[0]) <= 14] + P["pool"][:30]
-    run.cov["rule"] = ("command scripts from a grammar over {uci, isready, setoption (Hash 0..999999, UCI_Chess960, unknown, malformed), "
+    run.cov["rule"] = ("command scripts from a grammar over {uci, isready, setoption (Hash 0..64 MB, UCI_Chess960, unknown, malformed), "
                        "ucinewgame, position startpos|fen <pool FEN> [moves legal/illegal/garbage], moves, go depth|nodes|movetime|"
                        "wtime btime [winc binc movestogo incl. 0]|perft|split (incl. 0), bare and ill-formed go, print, history, eval, "
                        "unknown words, empty lines, quit or EOF}; each script runs on the optimised and on the checked binary: exit status "
@@ -182,6 +182,10 @@ def check_C15(run):
         return run_engine(binp, s, timeout=60)
     jobs = [((s, t), b) for (s, t) in scripts for b in (rel, dev)]
     res = vlib.par_map(one, jobs)
+    # a time-out under load is not yet a hang: run the script again, alone, with a longer limit
+    for k, ((s, timed), binp) in enumerate(jobs):
+        if res[k][3]:
+            res[k] = run_engine(binp, s, timeout=300)
     nv = 0
     for k, ((s, timed), binp) in enumerate(jobs):
         out, err, rc, to = res[k]
@@ -197,7 +201,7 @@ def check_C15(run):
             run.cov["classes"]["skipped-not-wellformed"] = run.cov["classes"].get("skipped-not-wellformed", 0) + 1
             continue
         if to:
-            bad = "no termination within 60 s (hang)"
+            bad = "no termination within 60 s in parallel and 300 s alone (hang)"
         elif rc != 0:
             bad = f"abnormal exit status {rc}"
         elif err.strip():
